@@ -112,8 +112,11 @@ fn tree_cases(ctx: &mut Ctx) {
         // saturation, |LLR| <= 3, totals <= 12)
         let big = name.contains("Tanhf64") && rng.chance(1, 3);
         let (lo, hi) = if big { (8.0, 30.0) } else if name.ends_with("32") { (0.25, 3.0) } else { (0.25, 6.0) };
+        // a quarter of the forests carry erasures: exact-zero channel LLRs on up to three bits (punctured / erased positions)
+        let erasures = rng.chance(1, 4);
         let llrs: Vec<f64> = (0..cols)
             .map(|_| {
+                if erasures && rng.chance(1, 4) { return 0.0; }
                 let m = lo + (hi - lo) * rng.f64_unit();
                 if rng.chance(1, 2) { -m } else { m }
             })
